@@ -186,13 +186,13 @@ facility, team, workplace and component of `m`, and the two cost logs, have exac
 that model has the tasks of `m` plus the helpers and the same other sizes; reversing a log
 keeps its length and does not touch the clock.) -/
 theorem C17_aligned (m : Model) (p : Params) (due rev : Bool) (s : St)
-    (h : p.initLog = true ∨ Aligned (backwardModel m due) s) :
+    (h : p.initLog = true ∨ Aligned (backwardModel m due) (bwdStart m due s)) :
     Aligned m (backwardSimulate m p due rev s) := by
   have E := Extends.backwardModel m due
-  have h1 : Aligned (backwardModel m due) (simulate (backwardModel m due) p s) := C08_run s h
-  have h2 : Aligned m (simulate (backwardModel m due) p s) :=
+  have h1 : Aligned (backwardModel m due) (simulate (backwardModel m due) p (bwdStart m due s)) := C08_run (bwdStart m due s) h
+  have h2 : Aligned m (simulate (backwardModel m due) p (bwdStart m due s)) :=
     Aligned.shrink h1 E.nT E.nW E.nF E.nTeam E.nWp E.nC
-  have h3 : Aligned m { simulate (backwardModel m due) p s with mode := .backward } :=
+  have h3 : Aligned m { simulate (backwardModel m due) p (bwdStart m due s) with mode := .backward } :=
     C08_aligned_mode _ _ h2
   unfold backwardSimulate
   cases rev
@@ -203,13 +203,13 @@ example : ({} : Params).initLog = true := rfl
 
 /-- the clock after `backward_simulate` is the clock of the inner run -/
 theorem C17_time (m : Model) (p : Params) (due rev : Bool) (s : St) :
-    (backwardSimulate m p due rev s).time = (simulate (backwardModel m due) p s).time := by
+    (backwardSimulate m p due rev s).time = (simulate (backwardModel m due) p (bwdStart m due s)).time := by
   unfold backwardSimulate; cases rev <;> rfl
 
 /-- with `reverse_log_information` every task-state log is the inner run's log reversed -/
 theorem C17_reversed_log (m : Model) (p : Params) (due : Bool) (s : St) (t : Nat) (ht : t < m.nT) :
     (backwardSimulate m p due true s).logs.tState t =
-      ((simulate (backwardModel m due) p s).logs.tState t).reverse := by
+      ((simulate (backwardModel m due) p (bwdStart m due s)).logs.tState t).reverse := by
   unfold backwardSimulate
   simp only [if_true]
   rw [reverseLogs_tState _ _ t ht]
@@ -230,13 +230,13 @@ task `a` is logged in any state but NONE, each of its finish-to-start *successor
 theorem C17_backward_row (m : Model) (p : Params) (due : Bool) (s : St)
     (hs : p.initState = true) (hl : p.initLog = true) {a b : Nat} (ha : a < m.nT) (hb : b < m.nT)
     (hex : ¬ exempt m a) (hedge : (b, Dep.fs) ∈ (m.task a).outputs) {k : Nat} {x : TS}
-    (h : ((simulate (backwardModel m due) p s).logs.tState a)[k]? = some x) (hx : x ≠ .none) :
-    ((simulate (backwardModel m due) p s).logs.tState b)[k]? = some .finished := by
+    (h : ((simulate (backwardModel m due) p (bwdStart m due s)).logs.tState a)[k]? = some x) (hx : x ≠ .none) :
+    ((simulate (backwardModel m due) p (bwdStart m due s)).logs.tState b)[k]? = some .finished := by
   have E := Extends.backwardModel m due
   have hex' : ¬ exempt (backwardModel m due) a := by
     unfold exempt at hex ⊢
     rw [E.prog (r := revDeps m) ha]; exact hex
-  exact run_fs_row s hs hl (Nat.lt_of_lt_of_le ha E.nT) (Nat.lt_of_lt_of_le hb E.nT) hex'
+  exact run_fs_row (bwdStart m due s) hs hl (Nat.lt_of_lt_of_le ha E.nT) (Nat.lt_of_lt_of_le hb E.nT) hex'
     (C17_reversed_edge m due ha hedge) h hx
 
 example : ({} : Params).initState = true ∧ ({} : Params).initLog = true ∧ ¬ exempt exB 0 ∧
@@ -246,12 +246,12 @@ example : ({} : Params).initState = true ∧ ({} : Params).initLog = true ∧ ¬
 /-- **C17 (backward logs, FINISHED persists).** -/
 theorem C17_backward_persist (m : Model) (p : Params) (due : Bool) (s : St) (hl : p.initLog = true)
     {b : Nat} (hb : b < m.nT) {k k' : Nat}
-    (h : ((simulate (backwardModel m due) p s).logs.tState b)[k]? = some .finished) (hkk : k ≤ k')
-    (hk' : k' < (simulate (backwardModel m due) p s).time) :
-    ((simulate (backwardModel m due) p s).logs.tState b)[k']? = some .finished := by
+    (h : ((simulate (backwardModel m due) p (bwdStart m due s)).logs.tState b)[k]? = some .finished) (hkk : k ≤ k')
+    (hk' : k' < (simulate (backwardModel m due) p (bwdStart m due s)).time) :
+    ((simulate (backwardModel m due) p (bwdStart m due s)).logs.tState b)[k']? = some .finished := by
   have E := Extends.backwardModel m due
-  rw [C08_run_time s hl] at hk'
-  exact run_finished_persists s hl (Nat.lt_of_lt_of_le hb E.nT) h hkk hk'
+  rw [C08_run_time (bwdStart m due s) hl] at hk'
+  exact run_finished_persists (bwdStart m due s) hl (Nat.lt_of_lt_of_le hb E.nT) h hkk hk'
 
 example : ({} : Params).initLog = true := rfl
 
@@ -262,10 +262,10 @@ hypothesis: a task complete by default is never logged WORKING at all. -/
 theorem C17_backward_order (m : Model) (p : Params) (due : Bool) (s : St)
     (hs : p.initState = true) (hl : p.initLog = true) {a b : Nat} (ha : a < m.nT) (hb : b < m.nT)
     (hedge : (b, Dep.fs) ∈ (m.task a).outputs) {i j : Nat}
-    (hi : ((simulate (backwardModel m due) p s).logs.tState b)[i]? = some .working)
-    (hj : ((simulate (backwardModel m due) p s).logs.tState a)[j]? = some .working) : i < j := by
+    (hi : ((simulate (backwardModel m due) p (bwdStart m due s)).logs.tState b)[i]? = some .working)
+    (hj : ((simulate (backwardModel m due) p (bwdStart m due s)).logs.tState a)[j]? = some .working) : i < j := by
   have E := Extends.backwardModel m due
-  exact run_fs_order s hs hl (Nat.lt_of_lt_of_le ha E.nT) (Nat.lt_of_lt_of_le hb E.nT)
+  exact run_fs_order (bwdStart m due s) hs hl (Nat.lt_of_lt_of_le ha E.nT) (Nat.lt_of_lt_of_le hb E.nT)
     (C17_reversed_edge m due ha hedge) hi hj
 
 example : ({} : Params).initState = true ∧ ({} : Params).initLog = true ∧
@@ -286,8 +286,8 @@ theorem C17_reversed_order (m : Model) (p : Params) (due : Bool) (s : St)
   have E := Extends.backwardModel m due
   rw [C17_reversed_log m p due s a ha] at hi
   rw [C17_reversed_log m p due s b hb] at hj
-  have hla := run_tState_length (M := backwardModel m due) (p := p) s hl (Nat.lt_of_lt_of_le ha E.nT)
-  have hlb := run_tState_length (M := backwardModel m due) (p := p) s hl (Nat.lt_of_lt_of_le hb E.nT)
+  have hla := run_tState_length (M := backwardModel m due) (p := p) (bwdStart m due s) hl (Nat.lt_of_lt_of_le ha E.nT)
+  have hlb := run_tState_length (M := backwardModel m due) (p := p) (bwdStart m due s) hl (Nat.lt_of_lt_of_le hb E.nT)
   have hi' := (List.getElem?_eq_some_iff.mp hi).1
   have hj' := (List.getElem?_eq_some_iff.mp hj).1
   rw [List.length_reverse] at hi' hj'
@@ -343,8 +343,8 @@ input and output lists describe the same edges. -/
 theorem C17_backward_order_partial (m : Model) (hsym : EdgeSym m) (p : Params) (due : Bool) (s : St)
     (hs : p.initState = true) (hl : p.initLog = true) {a b : Nat} (ha : a < m.nT) (hb : b < m.nT)
     (hedge : (a, Dep.fs) ∈ (m.task b).inputs) {i j : Nat}
-    (hi : ((simulate (backwardModel m due) p s).logs.tState b)[i]? = some .working)
-    (hj : ((simulate (backwardModel m due) p s).logs.tState a)[j]? = some .working) : i < j :=
+    (hi : ((simulate (backwardModel m due) p (bwdStart m due s)).logs.tState b)[i]? = some .working)
+    (hj : ((simulate (backwardModel m due) p (bwdStart m due s)).logs.tState a)[j]? = some .working) : i < j :=
   C17_backward_order m p due s hs hl ha hb ((hsym a b .fs ha hb).mp hedge) hi hj
 
 example : EdgeSym exB ∧ (0, Dep.fs) ∈ (exB.task 1).inputs := ⟨exB_sym, by decide +kernel⟩
